@@ -12,6 +12,7 @@ package main
 import (
 	"bytes"
 	"fmt"
+	"net"
 	"net/netip"
 	"strings"
 	"time"
@@ -161,6 +162,67 @@ func scenarioN(cs []config) e1.Scenario {
 	return e1.Scenario{Name: name, Bound: 0, Body: body, Check: check}
 }
 
+// busyScenario: another socket of the host already holds the client's fixed UDP bind port (an event
+// listener on the same port, another program). A call may then fail without sending anything, but
+// whatever does leave must still leave from the configured bind address — never from a substitute
+// port — and at most once.
+func busyScenario(c config) e1.Scenario {
+	var opIx int
+	var failed bool
+	var start int
+	body := func() {
+		f := &farm.Farm{}
+		for _, a := range []string{"192.168.1.100:60000", "10.0.0.7:54321", otherAt} {
+			serial := target
+			if a == otherAt {
+				serial = other
+			}
+			f.Controllers = append(f.Controllers, farm.Echo(a, serial, func([]byte) time.Duration { return T / 10 }))
+		}
+		vs.Net().Env = f
+		opIx = vs.Choose(len(spec.Ops), "operation")
+		op := &spec.Ops[opIx]
+		ap := netip.MustParseAddrPort(c.bind)
+		holder, err := vs.ListenUDP("udp4", &net.UDPAddr{IP: net.IPv4zero, Port: int(ap.Port())})
+		if err != nil {
+			panic("harness could not occupy the bind port: " + err.Error())
+		}
+		start = len(vs.Net().Packets)
+		u := mkClient(c)
+		if op.Broadcast {
+			_, err := u.GetDevices()
+			failed = err != nil
+		} else {
+			failed = ops.Invoke(u, op.Name, target, ops.Baseline(op)).Err != nil
+		}
+		holder.Close()
+	}
+	check := func(e *vs.Exec) (string, []e1.Viol) {
+		viols := e1.Generic(e)
+		if e.Abort != "" {
+			return e.Abort, viols
+		}
+		op := &spec.Ops[opIx]
+		packets := vs.Net().Packets[start:]
+		n := 0
+		for _, p := range packets {
+			if p.Proto != "tcp-connect" {
+				n++
+			}
+		}
+		if n == 0 && failed {
+			return "bind-port-busy: failed, nothing sent", viols
+		}
+		if n == 0 && !failed && !op.NoReply {
+			viols = append(viols, e1.Viol{Key: "bind-port-busy/succeeded-without-sending", What: fmt.Sprintf("%s, operation %s", c, op.Name)})
+			return "bind-port-busy: ?", viols
+		}
+		l, v := judge(c, op, true, packets, "bind-port-busy/", []config{c})
+		return "bind-port-busy: " + l, append(viols, v...)
+	}
+	return e1.Scenario{Name: "bind-port-busy " + c.String(), Bound: 0, Body: body, Check: check}
+}
+
 func judge(c config, op *spec.Op, answered bool, packets []vs.Packet, prefix string, all []config) (string, []e1.Viol) {
 	viols := []e1.Viol{}
 	{
@@ -295,6 +357,11 @@ func main() {
 			scenarios = append(scenarios, scenarioN([]config{a, b}))
 		}
 	}
+	for _, c := range reduced {
+		if c.bind != "" {
+			scenarios = append(scenarios, busyScenario(c))
+		}
+	}
 	if r.Thorough() {
 		small := []config{}
 		for _, c := range reduced {
@@ -315,7 +382,7 @@ func main() {
 	if r.Worker == "" && r.Replay == "" {
 		e1.Conformance(r)
 	}
-	r.Rule("full cross product of 6 target-controller configurations x 6 protocol strings x 4 bind addresses x 3 broadcast settings x bystander controller x constructor (1728 configurations), each x 32 operations x controllers {silent, answering} as environment choices; plus every ordered pair (thorough: also every ordered triple over the 12 UDP ones) of 24 reduced configurations {unconfigured, configured} x {udp, tcp} x {no bind, two different local addresses on the same fixed port} x {default, configured broadcast address} as clients used one after the other in one process, each call judged against its own client's configuration; distinct = distinct (transport, destination, answered) labels")
+	r.Rule("full cross product of 6 target-controller configurations x 6 protocol strings x 4 bind addresses x 3 broadcast settings x bystander controller x constructor (1728 configurations), each x 32 operations x controllers {silent, answering} as environment choices; plus every ordered pair (thorough: also every ordered triple over the 12 UDP ones) of 24 reduced configurations {unconfigured, configured} x {udp, tcp} x {no bind, two different local addresses on the same fixed port} x {default, configured broadcast address} as clients used one after the other in one process, each call judged against its own client's configuration; and the 16 fixed-bind-port ones with the bind port already held by another socket of the host (a call may fail without sending, but nothing may leave from another source); distinct = distinct (transport, destination, answered) labels")
 	r.Assume("reference routing function route() in this file, written from the property statement; protocol strings other than exactly \"tcp\" mean UDP")
 	r.Assume("simulated network: source address = bind address, ephemeral port when the bind port is 0")
 	r.Finish()
